@@ -127,6 +127,59 @@ for _k in range(0, 5):
              pre_hook=_fh_pre(_k), exit_hook=_fh_exit(_k), raises=[], uses=[TRY + '.match_base'])
 
 
+# ---- find_handler for a handler list of ANY length: loop invariant "no handler before position k matches" -------
+hname = z3.Function('handler_name', z3.IntSort(), SS)
+hblock = z3.Function('handler_block', z3.IntSort(), Val)
+
+
+def _hmatch(exc_t, i):
+    return z3.Or(hname(i) == cname(exc_t), hname(i) == z3.StringVal(''), anc(exc_t, hname(i)))
+
+
+def _fhN_pre(E, env):
+    from pyvc.engine import VO_term
+    n = z3.Int('n_handlers')
+    E.assume(n >= 0)
+
+    def elem(E_, k):
+        return VT([VS(hname(k)), VO_term(hblock(k), 'handler_block[%s]' % z3.simplify(k))])
+    hs = VSeq('handlers', n, kind='list', elem_fn=elem)
+    E.heap[env.locals['self'].addr].fields['handlers'] = hs
+    env.locals['__handlers'] = hs
+
+
+def _no_handler_before(E, k, exc):
+    i = z3.Int('i!nh')
+    return VB(z3.ForAll([i], z3.Implies(z3.And(i >= 0, i < E.as_z3_int(k)), z3.Not(_hmatch(E.to_val(exc), i)))))
+
+
+_spec.register('forall_handlers_before_no_match', _no_handler_before)
+
+
+def _fhN_exit(E, outcome, value, env, prefix):
+    if outcome != 'normal':
+        return
+    exc = env.locals['exception']
+    n = z3.Int('n_handlers')
+    res = E.to_val(value)
+    i, j = z3.Int('i!fh'), z3.Int('j!fh')
+    first_j = z3.And(j >= 0, j < n, _hmatch(exc.t, j), z3.ForAll([i], z3.Implies(z3.And(i >= 0, i < j), z3.Not(_hmatch(exc.t, i)))))
+    E.oblige(prefix + '::C14.first_matching_handler_any_length', z3.ForAll([j], z3.Implies(first_j, res == hblock(j))), kind='post',
+             detail='for a handler list of any length: the result is the body of the first handler naming the class, one of its '
+                    '(transitive) base classes, or nothing (bare except)')
+    E.oblige(prefix + '::C14.no_handler_none_any_length',
+             z3.Implies(z3.ForAll([i], z3.Implies(z3.And(i >= 0, i < n), z3.Not(_hmatch(exc.t, i)))), res == E.to_val(NONE)), kind='post',
+             detail='for a handler list of any length: None when no handler matches')
+
+
+contract(TRY + '.find_handler', variant='handlersN',
+         params=dict(self=Obj(TRY, lazy=True), exception=Opaque()),
+         pre_hook=_fhN_pre, exit_hook=_fhN_exit, raises=[], uses=[TRY + '.match_base'],
+         invariants={1: dict(header='for e, h in self.handlers',
+                             inv=dict(none_so_far="forall_handlers_before_no_match(__k_1, exception)"),
+                             types={'e': 'str', 'h': 'opaque'})})
+
+
 # ------------------------------------------------------------------ render_try_except
 def _rte_exit(E, outcome, value, env, prefix):
     if getattr(E, 'trace_truncated', False):
